@@ -2,9 +2,15 @@
    Statements only; proofs in Proofs/Slicing.v.  `exec_loop_x` is the model's execute_loop with the reason for
    stopping made visible (None = the instruction budget ran out); C13_loop_is_model ties it to the model's own loop.
    Proved: any way of cutting a run into budgets gives the same state and the same first event as one budget of
-   the same total -- for every program, state and cut.  NOT proved: the CONT half (that STOP/END/interrupt
-   followed by CONT reaches the state of the uninterrupted run); that half is checked on runs by the C13 monitor. *)
-From BL Require Import Base.Prelude Mach.Val Mach.Compile Mach.Listing Mach.Runtime Proofs.Slicing.
+   the same total -- for every program, state and cut.  Proved as well (Proofs/ContTrip.v): the interrupt / CONT round trip
+   through the public entry points -- interrupt(), the execute() calls that report ?BREAK and show the prompt, enter("CONT"),
+   execute(k+1) -- ends in execute(k) of a machine that equals the interrupted one in address, stack, variables, functions,
+   DATA pointer, random state, program code, symbols and data, and differs only in the cursor column (0 after the forced line
+   break), the emptied continuation slot, the trace marker and the direct-code area; the same for any machine at the prompt
+   whose slot holds a running program (after STOP, END or an error).  NOT proved: that the rest of the run does not read
+   those four differences (the column is visible to TAB, POS and print zones by design); that part, and END / STOP end to
+   end, is checked on runs by the C13 monitor. *)
+From BL Require Import Base.Prelude Lang.Ast Mach.Val Mach.Compile Mach.Listing Mach.Runtime Proofs.Slicing Proofs.ContTrip.
 Local Open Scope N_scope.
 
 Theorem C13_interrupt_saves : forall r, r_pc r < r_entry r ->
@@ -82,14 +88,81 @@ Theorem C13_cont_refused : forall r, r_cont r = StStopped -> do_cont r = (r, err
 Proof. exact cont_refused. Qed.
 Print Assumptions C13_cont_refused.
 
-(* ---- a pending key wait (INKEY$): asking again changes nothing, and CONT after an interrupt comes back to the same wait ---- *)
-Theorem C13_key_wait_asks_again : forall O r k, r_state r = StInkey -> rt_execute O r k = Ok (r, EvInkey).
-Proof. exact key_wait_asks_again. Qed.
-Print Assumptions C13_key_wait_asks_again.
+(* ---- the interrupt / CONT round trip at the public entry points (Proofs/ContTrip.v) ---- *)
+Theorem C13_cont_line_compiles : forall p c, Linked p -> program_link (codegen_line p None (Ok [SCont c])) = cont_prog p.
+Proof. exact cont_line_compiles. Qed.
+Print Assumptions C13_cont_line_compiles.
 
-Theorem C13_key_wait_resumes : forall O r k, r_state r = StRunning -> r_cont r = StInkey ->
-  let r' := fst (do_cont r) in
-  snd (do_cont r) = Ok (Some EvRunning) /\ r_state r' = StInkey /\ r_pc r' = r_cont_pc r /\ r_stack r' = r_stack r
-  /\ r_vars r' = r_vars r /\ rt_execute O r' k = Ok (r', EvInkey).
-Proof. exact key_wait_resumes. Qed.
-Print Assumptions C13_key_wait_resumes.
+Theorem C13_cont_prog_keeps_program : forall p, pg_direct p <= lenN (l_ops (pg_link p)) ->
+  let p' := cont_prog p in
+  firstnN (pg_direct p) (l_ops (pg_link p')) = firstnN (pg_direct p) (l_ops (pg_link p))
+  /\ l_data (pg_link p') = l_data (pg_link p) /\ l_data_pos (pg_link p') = l_data_pos (pg_link p)
+  /\ l_syms (pg_link p') = l_syms (pg_link p) /\ pg_direct p' = pg_direct p /\ pg_ind_errors p' = pg_ind_errors p.
+Proof. exact cont_prog_keeps_program. Qed.
+Print Assumptions C13_cont_prog_keeps_program.
+
+Theorem C13_break_then_prompt : forall O r1 k1 k2 k3 k4, r_state r1 = StInterrupt -> r_entry r1 <> 0 ->
+  let e := mkErr E_Break (cur_line r1) (0, 0) in
+  let pr := EvPrint (match r_prompt r1 with [] => [] | p => p ++ [c_nl] end) in
+  if 0 <? r_col r1
+  then execs O r1 [k1; k2; k3; k4] = Ok (at_prompt r1, [EvPrint [c_nl]; EvErrors [e]; pr; EvStopped])
+  else execs O r1 [k2; k3; k4] = Ok (at_prompt r1, [EvErrors [e]; pr; EvStopped]).
+Proof. exact break_then_prompt. Qed.
+Print Assumptions C13_break_then_prompt.
+
+Theorem C13_error_then_prompt : forall O rS e k1 k2 k3 k4, r_state rS = StRuntimeError e -> r_entry rS <> 0 ->
+  let pr := EvPrint (match r_prompt rS with [] => [] | p => p ++ [c_nl] end) in
+  if 0 <? r_col rS
+  then execs O rS [k1; k2; k3; k4] = Ok (at_prompt rS, [EvPrint [c_nl]; EvErrors [e]; pr; EvStopped])
+  else execs O rS [k2; k3; k4] = Ok (at_prompt rS, [EvErrors [e]; pr; EvStopped]).
+Proof. exact error_then_prompt. Qed.
+Print Assumptions C13_error_then_prompt.
+
+Theorem C13_cont_instruction_runs : forall O r k h, r_dirty r = false -> Linked (r_prog r) -> r_tron r = false ->
+  r_cont r = StRunning ->
+  exec_loop O (S k) h (entered r) = exec_loop O k h (resumed r).
+Proof. exact cont_instruction_runs. Qed.
+Print Assumptions C13_cont_instruction_runs.
+
+Theorem C13_interrupt_cont_round_trip : forall O r k,
+  r_state r = StRunning -> r_pc r < r_entry r -> r_dirty r = false -> r_tron r = false -> Linked (r_prog r) ->
+  r_entry r = pg_direct (r_prog r) ->
+  let rB := at_prompt (rt_interrupt r) in
+  let r' := resumed rB in
+  rt_enter O rB cont_text = Ok (entered rB, true)
+  /\ rt_execute O (entered rB) (N.succ k) = rt_execute O r' k
+  /\ (r_pc r' = r_pc r /\ r_stack r' = r_stack r /\ r_slen r' = r_slen r /\ r_vars r' = r_vars r /\ r_fns r' = r_fns r
+      /\ r_rand r' = r_rand r /\ r_ent r' = r_ent r /\ r_state r' = StRunning /\ r_entry r' = r_entry r
+      /\ r_tron r' = r_tron r /\ r_dirty r' = r_dirty r /\ r_snap r' = r_snap r /\ r_prompt r' = r_prompt r
+      /\ ls_lines (r_listing r') = ls_lines (r_listing r) /\ r_prog r' = cont_prog (r_prog r)
+      /\ r_col r' = 0 /\ r_cont r' = StStopped /\ r_cont_pc r' = r_pc r /\ r_tr r' = None).
+Proof. exact interrupt_cont_round_trip. Qed.
+Print Assumptions C13_interrupt_cont_round_trip.
+
+Theorem C13_cont_at_prompt_resumes : forall O rB k,
+  match r_state rB with StInput | StInkey => False | _ => True end ->
+  r_cont rB = StRunning -> r_dirty rB = false -> r_tron rB = false -> Linked (r_prog rB) ->
+  let r' := resumed rB in
+  rt_enter O rB cont_text = Ok (entered rB, true)
+  /\ rt_execute O (entered rB) (N.succ k) = rt_execute O r' k
+  /\ (r_pc r' = r_cont_pc rB /\ r_stack r' = r_stack rB /\ r_slen r' = r_slen rB /\ r_vars r' = r_vars rB /\ r_fns r' = r_fns rB
+      /\ r_rand r' = r_rand rB /\ r_ent r' = r_ent rB /\ r_state r' = StRunning /\ r_entry r' = pg_direct (r_prog rB)
+      /\ r_tron r' = r_tron rB /\ r_dirty r' = r_dirty rB /\ r_snap r' = r_snap rB /\ r_prompt r' = r_prompt rB
+      /\ ls_lines (r_listing r') = ls_lines (r_listing rB) /\ r_prog r' = cont_prog (r_prog rB)
+      /\ r_col r' = r_col rB /\ r_cont r' = StStopped /\ r_cont_pc r' = r_cont_pc rB /\ r_tr r' = None).
+Proof. exact cont_at_prompt_resumes. Qed.
+Print Assumptions C13_cont_at_prompt_resumes.
+
+(* Program::link always leaves the shape the round trip asks for *)
+Theorem C13_program_link_shape : forall p, let q := program_link p in
+  l_unlinked (pg_link q) = [] /\ l_whiles (pg_link q) = [] /\ l_cur (pg_link q) = 0%Z
+  /\ filter (fun e => (0 <=? fst e)%Z) (l_syms (pg_link q)) = l_syms (pg_link q).
+Proof. exact program_link_shape. Qed.
+Print Assumptions C13_program_link_shape.
+
+(* non-vacuity: a machine reached through enter / execute only, stopped after its first PRINT in the middle of a comparison *)
+Example C13_round_trip_applies :
+  r_state trip_machine = StRunning /\ r_pc trip_machine < r_entry trip_machine /\ r_dirty trip_machine = false
+  /\ r_tron trip_machine = false /\ Linked (r_prog trip_machine) /\ r_entry trip_machine = pg_direct (r_prog trip_machine)
+  /\ r_stack trip_machine <> []%list /\ 0 < r_col trip_machine.
+Proof. exact trip_premises. Qed.
